@@ -372,7 +372,12 @@ class NestedTextRenderer(Renderer):
         ret = []
         for decoded_node in decoded_nodes:
             if isinstance(decoded_node, NoValueDataNode):
-                ret.append('{}{}'.format(indent, decoded_node))
+                if isinstance(decoded_node.descriptor, ElementDescriptor):
+                    # Element without data (221YYY data not present): shown as a
+                    # comment so that it is not taken for a line carrying a value
+                    ret.append('{}# {} (data not present)'.format(indent, decoded_node))
+                else:
+                    ret.append('{}{}'.format(indent, decoded_node))
 
                 if isinstance(decoded_node, SequenceNode):
                     ret.extend(
